@@ -127,7 +127,7 @@ func c18(c *core.Ctx) {
 	selfCheckOracles()
 	// (1) single goroutine
 	seen := map[uintptr]int{}
-	c.Section("sequential", c.N(6000, 400000), func(_ int64, r *gen.Rand) {
+	c.Section("sequential", c.N(6000, 3000000), func(_ int64, r *gen.Rand) {
 		d, steps, bad := c18Program(r, seen)
 		c.Eval(1)
 		c.Count("digests_compared", int64(d))
@@ -147,7 +147,7 @@ func c18(c *core.Ctx) {
 	}
 	c.Count("acquires_that_returned_a_recycled_object", reused)
 	// (2) many goroutines sharing the pools
-	c.Section("concurrent", c.N(40, 1500), func(i int64, r *gen.Rand) {
+	c.Section("concurrent", c.N(40, 10000), func(i int64, r *gen.Rand) {
 		g := 2 + r.Intn(15)
 		var wg sync.WaitGroup
 		results := make([]string, g)
@@ -179,7 +179,7 @@ func c18(c *core.Ctx) {
 		c.Distinct(uint64(i) | 1<<50)
 	})
 	// (3) through the public path: MessageIntegrity AddTo/Check from many goroutines on distinct messages
-	c.Section("public-path", c.N(20, 600), func(i int64, r *gen.Rand) {
+	c.Section("public-path", c.N(20, 5000), func(i int64, r *gen.Rand) {
 		g := 16
 		var wg sync.WaitGroup
 		errs := make([]string, g)
